@@ -1,5 +1,5 @@
 import Falcon.Lemmas.KeyCodecStrict
-import Falcon.Props.C12
+import Falcon.Lemmas.ZqExact
 
 /-! secret-key fields: deserialise-then-serialise is the identity on accepted chunks (uses C12's `balanced_exact`) -/
 set_option linter.unusedSimpArgs false
